@@ -31,7 +31,7 @@ ASSUMPTIONS = [
 SCHEMA = {
     "m": [("api", 7), ("mt", 3), ("fs", progs.N_FS)],
     "a": [
-        ("style", 8),
+        ("style", 10),
         ("typed", 2),
         ("at", 3),
         ("exit", 16),
